@@ -406,8 +406,50 @@ pub fn path_defs() -> Vec<SubjectDef> {
         core(false, vec![], vec![vec![brx(b"(?-u:[\\x60\\x80])+;")], vec![brx(b"(?-u:[\\xA0\\xC0])(?-u:[\\x7f\\xff])x")], vec![tok(";")]], false),
         // bounded repetitions of the dot and of dot-like classes (str mode): a run counted in chars, ending on 2-4 byte chars
         core(true, vec![rx(" ")], vec![vec![rx("a.?")], vec![rx("b.{2}")], vec![rx("c[^\\n]{0,3}!")], vec![rx("[d-z]+")], vec![rx("0(?s:.){1,2}")], vec![rx("1(.)?(.)?;")]], false),
+        // the same text as a plain token and, at a higher priority, as an end-anchored pattern, with nothing longer running
+        // through it: which of the two a buffer ending right after the text holds is decided by the next byte only
+        core(true, vec![rx(" ")], vec![vec![tok(";")], vec![pr(rx(";$"), 10)], vec![tok("x")], vec![pr(rx("x\\z"), 9)], vec![tok("end")], vec![pr(rx("end(?m:$)"), 12)], vec![rx("[a-df-w]")]], false),
+        // literal runs: patterns (token, regex, skip) that end strictly inside a longer pattern's run of single-byte,
+        // single-edge states (runs of 3, 4, 7, 8 states), with nothing else keeping those states multi-edge; the covering
+        // inputs complete the run and fail after it, or end inside it
+        core(true, vec![rx("--"), rx(" ")], vec![vec![tok("let")], vec![rx("letter[0-9]+")], vec![tok("ab")], vec![rx("abcdefghi[0-9]")], vec![rx("------>")], vec![tok("=")], vec![tok("====")], vec![tok("========!")]], true),
+        // literal tails of 4 .. 21 bytes that share no state with another pattern and hold no accept on the way, next to
+        // a pattern that leaves the root on other bytes: input ending inside the tail is one error over the whole prefix
+        core(true, vec![rx(" ")], vec![vec![tok("while")], vec![rx("[0-9]+")], vec![tok("qrstuvwxyzqrstuvwxyz0")], vec![tok("=>>>>>>>>")], vec![rx("x(yzyzyzyz)+")]], false),
+        core(false, vec![], vec![vec![PatSpec::token(LitSpec::bytes(b"\xC3\xA9\xC3\xA9!".to_vec()))], vec![brx(b"\x00\x01\x02\x03\x04[\x05\x06]")], vec![brx(b"\x00\x01")], vec![tok("é")]], false),
+        // str mode: loops over classes that exclude single non-ASCII chars (every lead byte present, not every
+        // continuation byte), next to tokens for the excluded chars
+        core(true, vec![], vec![vec![rx("[^é;/]+")], vec![tok("é")], vec![tok(";")], vec![rxg("//[^\\n\\u{2028}\\u{2029}]*")], vec![tok("/")]], false),
+        core(true, vec![rx("\\s+")], vec![vec![rx("[\\S&&\\PN]+")], vec![rx("\\pN+")]], true),
         // Unicode-aware negated class loop lexing arbitrary bytes (utf8 = false): invalid sequences end the loop
         core(false, vec![], vec![vec![rx("[^;§]+")], vec![tok(";")], vec![tok("§")], vec![brx(b"(?-u:[\\x80-\\xff])")]], false),
+    ]
+}
+
+/// Str-mode definitions with a pattern that can match part of a code point. The tree is expected to reject every one of
+/// them (C04's acceptance clause, checked in tier G); a tree that accepts one gets it compiled as a core subject, so that
+/// the runtime clauses (char-boundary spans C04, str slices inside the source C05, str/bytes agreement C12) see what the
+/// accepted definition does. On a tree that rejects them all this family is empty.
+pub fn trap_defs() -> Vec<SubjectDef> {
+    use crate::spec::{DefSpec, LitSpec, PatSpec};
+    let rx = |t: &str| PatSpec::regex(LitSpec::str(t));
+    let brx = |t: &[u8]| PatSpec::regex(LitSpec::bytes(t.to_vec()));
+    let btok = |t: &[u8]| PatSpec::token(LitSpec::bytes(t.to_vec()));
+    let core = |skips: Vec<PatSpec>, variants: Vec<Vec<PatSpec>>| SubjectDef {
+        family: "core".into(),
+        def: DefSpec { utf8: true, subpatterns: vec![], skips, variants },
+        skip_log: false,
+        has_value: vec![],
+        error_cb: false,
+        twin: false,
+    };
+    vec![
+        core(vec![brx(b"\xC3")], vec![vec![rx("[a-z]+")], vec![rx("[0-9]")]]),
+        core(vec![brx(b"[\x80-\xBF]")], vec![vec![rx("[a-z]+")], vec![rx("\\p{Greek}+")]]),
+        core(vec![rx("(?-u)\\xE2")], vec![vec![rx("[a-z€]+")]]),
+        core(vec![rx(" ")], vec![vec![brx(b"[a-z]+(?-u:[\x80-\xFF])?")], vec![rx("é")]]),
+        core(vec![rx(" ")], vec![vec![btok(b"\xE6\x97")], vec![rx("[a-z日]+")]]),
+        core(vec![rx(" ")], vec![vec![rx("a(?s-u:.)")], vec![rx("[b-zé]+")]]),
     ]
 }
 
